@@ -106,3 +106,117 @@ Definition base_cost_default (opcode : N) : option N :=
               end
   | None => None
   end.
+
+(* ---- exact totals: the charge sequence of one executed instruction *)
+Definition obs := obsq -> option N.
+Definition pad8 (x : N) : N := ((x + 7) / 8) * 8.
+Fixpoint eval_u (u : uexpr) (w : N) (v : rfield -> N) (o : obs) : option N :=
+  match u with
+  | XReg f => Some (v f)
+  | XImm i => Some (imm i w)
+  | XObs q => o q
+  | XMax a b => match eval_u a w v o, eval_u b w v o with Some x, Some y => Some (N.max x y) | _, _ => None end
+  | XPad8 a => match eval_u a w v o with
+               | Some x => if pad8 x <? U64 then Some (pad8 x) else None   (* ok_or(MemoryOverflow)? *)
+               | None => None end
+  | XPad8Max a => match eval_u a w v o with
+                  | Some x => if pad8 x <? U64 then Some (pad8 x) else Some u64_max
+                  | None => None end
+  | XReg0is32 f => Some (if v f =? 0 then 32 else v f)
+  end.
+Fixpoint eval_g (g : cguard) (w : N) (v : rfield -> N) (o : obs) (new_entry : bool) : option bool :=
+  match g with
+  | GAlways => Some true
+  | GModeIs n => Some (imm I06 w =? n)
+  | GNewEntry => Some new_entry
+  | GNz u => option_map (fun x => negb (x =? 0)) (eval_u u w v o)
+  | GAnd a b => match eval_g a w v o new_entry with
+                | Some false => Some false
+                | Some true => eval_g b w v o new_entry
+                | None => None end
+  end.
+Definition item_amount (costs : list (string * cost_val)) (it : charge_item) (w : N) (v : rfield -> N) (o : obs) : option N :=
+  match it with
+  | ChFixed f => option_map cost_base (slookup f costs)
+  | ChBase f => option_map cost_base (slookup f costs)
+  | ChDep f u => match slookup f costs, eval_u u w v o with Some c, Some x => Some (resolve c x) | _, _ => None end
+  | ChDepNoBase f u => match slookup f costs, eval_u u w v o with Some c, Some x => Some (resolve_without_base c x) | _, _ => None end
+  | ChPerByte n => option_map (fun c => saturating_mul U64 n (cost_base c)) (slookup "new_storage_per_byte" costs)
+  end.
+(* amounts in program order: the known prefix, and whether it is the whole sequence *)
+Fixpoint seq_amounts (costs : list (string * cost_val)) (s : cseq) (w : N) (v : rfield -> N) (o : obs) (ne : bool) : list N * bool :=
+  match s with
+  | [] => ([], true)
+  | (g, it) :: t =>
+      match eval_g g w v o ne with
+      | None => ([], false)
+      | Some false => seq_amounts costs t w v o ne
+      | Some true => match item_amount costs it w v o with
+                     | None => ([], false)
+                     | Some a => let '(l, c) := seq_amounts costs t w v o ne in (a :: l, c)
+                     end
+      end
+  end.
+
+Definition micro_amounts (costs : list (string * cost_val)) (m : smicro) : option (list N) :=
+  match m with
+  | MRead hot len => option_map (fun c => [resolve c len]) (slookup (if hot then "storage_read_hot" else "storage_read_cold") costs)
+  | MWrite n o => match slookup "storage_write" costs, slookup "new_storage_per_byte" costs with
+                  | Some c, Some p => Some [resolve c n; saturating_mul U64 (cost_base p) (n - o)]
+                  | _, _ => None end
+  | MClear r => option_map (fun c => [resolve c r]) (slookup "storage_clear" costs)
+  end.
+Fixpoint micros_amounts (costs : list (string * cost_val)) (ms : list smicro) : option (list N) :=
+  match ms with
+  | [] => Some []
+  | m :: t => match micro_amounts costs m, micros_amounts costs t with Some a, Some b => Some (a ++ b)%list | _, _ => None end
+  end.
+Definition is_read (m : smicro) := match m with MRead _ _ => true | _ => false end.
+Definition is_write (m : smicro) := match m with MWrite _ _ => true | _ => false end.
+Definition is_clear (m : smicro) := match m with MClear _ => true | _ => false end.
+Fixpoint alternating (ms : list smicro) : bool :=
+  match ms with
+  | [] => true
+  | r :: [] => is_read r
+  | r :: wr :: t => is_read r && is_write wr && alternating t
+  end.
+Fixpoint reads_then_clear (ms : list smicro) : bool :=
+  match ms with
+  | [] => true
+  | m :: t => if is_read m then reads_then_clear t else is_clear m && match t with [] => true | _ => false end
+  end.
+(* the micro-operation list an instruction of this shape may attempt *)
+Definition shape_ok (sh : sshape) (ms : list smicro) : bool :=
+  match sh, ms with
+  | ShRead, [m] => is_read m
+  | ShReads, _ => forallb is_read ms
+  | ShReadWrite, [r; wr] => is_read r && is_write wr
+  | ShReadWrite, [r] => is_read r           (* the update panicked between read and write *)
+  | ShReadWrites, _ => alternating ms
+  | ShReadsClear, _ => reads_then_clear ms
+  | ShClear, [m] => is_clear m
+  | ShWrite, [m] => is_write m
+  | _, [] => true                            (* panicked before touching storage *)
+  | _, _ => false
+  end.
+
+(* all charges of one instruction, in order; bool = the list is complete *)
+Definition step_charges (costs : list (string * cost_val)) (opcode w : N) (v : rfield -> N) (o : obs) (ne : bool)
+           (ms : list smicro) : option (list N * bool) :=
+  match nlookup opcode gas_seq with
+  | None => None
+  | Some s =>
+      let '(l, c) := seq_amounts costs s w v o ne in
+      match nlookup opcode gas_storage with
+      | None => match ms with [] => Some (l, c) | _ => None end
+      | Some sh => if shape_ok sh ms
+                   then match micros_amounts costs ms with Some ml => Some ((l ++ ml)%list, c) | None => None end
+                   else None
+      end
+  end.
+
+Fixpoint prefix_sums (acc : N) (l : list N) : list N :=
+  match l with [] => [] | x :: t => (acc + x) :: prefix_sums (acc + x) t end.
+(* out of gas is justified: some charge of the sequence exceeds what is left at that point *)
+Fixpoint oog_justified (cg : N) (l : list N) : bool :=
+  match l with [] => false | x :: t => if cg <? x then true else oog_justified (cg - x) t end.
